@@ -7,6 +7,7 @@ def main():
     rnd = sys.argv[1]; pids = [a for a in sys.argv[2:] if not a.startswith("--")]
     generated = "--generated" in sys.argv
     entry = "--entry" in sys.argv
+    scale = "--scale" in sys.argv
     props = {json.loads(l)['id']: json.loads(l) for l in open('/verif/properties.jsonl')}
     prev = {}
     for d in sorted(glob.glob('/verif/seeded/*/meta.json')):
@@ -23,6 +24,8 @@ def main():
         GENHINT = (" THIS TIME, if the property involves any machine-generated source file (files named autogen_*.rs under rspirv/ or spirv/ — grammar tables, operand decoding/parsing, the Operand enum and its helpers, Builder methods, lift code, enum conversions), make your change IN SUCH A GENERATED FILE: a single table row, match arm, constant, range, field or operand order that a regeneration glitch or a hand edit could plausibly produce; only if the property touches no generated file at all, choose a hand-written one.") if generated else ""
         if entry:
             GENHINT = (" THIS TIME, look for the property's functionality behind a public entry point, variant or state that is rarely exercised — e.g. the word-slice forms (`load_words`, `parse_words`) next to the byte forms, `Assemble::assemble_into` next to `assemble`, the `insert_*` forms of Builder methods and the insertion points `Begin` / `FromBegin(n)` / `FromEnd(n)`, `Builder::new_from_module` / `module_ref` / `module_mut` / `pop_instruction` / `select_*`, the `*_mut` traversals, per-Function / per-Block `assemble` and `disassemble`, the extended-instruction tables, explicit-id forms of type methods, a second call of a method that is usually called once, an empty or partially filled module — and place your change so that ONLY that path misbehaves while the commonly used path keeps working.")
+        if scale:
+            GENHINT = (" THIS TIME, make a change whose effect depends on SCALE, POSITION or ACCUMULATED STATE rather than on the kind of input: something that only shows beyond a size or count threshold (an index, offset, length, id or counter narrowed to 8/16 bits or compared with `<` instead of `<=` at a far boundary; behaviour that differs for the 2nd/17th/257th/65537th element, word, instruction, block, function or call), at a particular position (first vs. later element of a list, last instruction of the last block, an instruction at a particular offset of the buffer), after a particular earlier call or failure (state that is left behind by one operation and misread by a later one), or through TWO cooperating edits that each look fine alone. Small inputs and fresh objects must keep working.")
         txt = f"""You are working in a scratch git worktree of the Rust project gfx-rs/rspirv at {wt} (a SPIR-V toolkit: binary parser/decoder, assembler, disassembler, data representation with a Builder, lift to a structured representation). Work ONLY inside {wt}. Do not read or touch /repo or /verif. IMPORTANT: do NOT use `git stash` (the stash is shared between several worktrees of this repository that other people are using right now); to test with and without your change use `git diff -- <files> > seeded_out/patch.diff`, `git apply -R seeded_out/patch.diff`, `git apply seeded_out/patch.diff`.
 
 Below is a semantic property of this code base that is supposed to hold. Your job is to play a maintainer who makes ONE small, realistic slip — the kind of change that passes review: an off-by-one, a wrong guard, a swapped pair of arguments, a lost case in a match, a 'simplification' that drops a check, a wrong constant, a refactor that changes order or a boundary — in the NON-TEST library source (hand-written or generated .rs files both count), such that the property is BROKEN for some inputs, while:
